@@ -32,6 +32,8 @@ properties! {
     "C05" => c05,
     "C07" => c07,
     "C08" => c08,
+    "C09" => c09,
+    "C10" => c10,
     "C06" => c06,
     "C19" => c19,
 }
